@@ -62,11 +62,12 @@ STATEFUL = [
 class PROP(PropCheck):
     id = "C10"
     mismatch_is_failure = False
-    theorems = ["C10_run_no_panic", "C10_fresh_state_ok", "C10_parse_prog_ok", "C10_lib_total", "C10_exit_only_from_move"]
+    theorems = ["C10_run_no_panic", "C10_fresh_state_ok", "C10_parse_prog_ok", "C10_lib_total", "C10_exit_only_from_move", "C10_pipeline_no_panic"]
+    audit_modules = ["C10", "C10b"]
     allowed_axioms = ("FloatAxioms.leb_spec", "leb_spec", "FloatAxioms.Prim2SF_valid", "Prim2SF_valid")
     coq_imports = ["Obs"]
     model_targets = ["theories/Obs.vo"]
-    prop_targets = ["theories/Props/C10.vo"]
+    prop_targets = ["theories/Props/C10.vo", "theories/Props/C10b.vo"]
     harness_mode = "run"
     trusted_base = [
         "Coq 8.16.1 kernel and bytecode VM; primitive floats (PrimFloat) evaluated by the VM on hardware doubles",
